@@ -21,10 +21,11 @@ Decode(doms, idx, acc) ==
   IF Len(acc) = Len(doms) THEN acc
   ELSE LET d == doms[Len(acc) + 1] IN Decode(doms, idx \div Len(d), Append(acc, d[(idx % Len(d)) + 1]))
 
-Doms(c) == c.argdom \o <<c.opqdom, c.stdom, c.descdom>>
+Doms(c) == c.argdom \o <<c.opqdom, c.stdom, c.descdom, c.coredom>>
 NOracles(c) == ProdLen(Doms(c), 1)
 OracleAt(c, i) == LET t == Decode(Doms(c), i - 1, <<>>) IN
-                  [args |-> SubSeq(t, 1, Len(c.argdom)), opq |-> t[Len(t) - 2], st |-> t[Len(t) - 1], desc |-> t[Len(t)]]
+                  [args |-> SubSeq(t, 1, Len(c.argdom)), opq |-> t[Len(t) - 3], st |-> t[Len(t) - 2], desc |-> t[Len(t) - 1],
+                   core |-> t[Len(t)]]
 
 RegKeys(c) == {<<c.regkeys[i][1], c.regkeys[i][2]>> : i \in DOMAIN c.regkeys}
 Accs(c) == {c.accs[i] : i \in DOMAIN c.accs}
